@@ -153,12 +153,12 @@ def diff(real, want, fields):
 class ServerRig:
     """a real tcp Server / ServerTls on a fake listen socket with the model's connections"""
 
-    def __init__(self, tls, conns, handshakes):
+    def __init__(self, tls, conns, handshakes, gone=(), wirelog=False):
         from hio.base import tyming
         clienting, serving, CT, RT = classes()
         self.tls = tls
         self.tymist = tyming.Tymist()
-        self.wl = None     # one wire log would mix the connections; C09 covers logs per endpoint
+        self.wl = mkwl() if wirelog else None     # content is C09's subject; here it only has to be harmless
         self.listen = fakesock.FakeListen(ha=("127.0.0.1", 56000))
         if tls:
             # ServerTls builds RemoterTls objects itself: their wrap() is replaced for the life of this rig so that the
@@ -166,9 +166,9 @@ class ServerRig:
             real_wrap = serving.RemoterTls.wrap
             serving.RemoterTls.wrap = lambda self_: None
             self._restore = lambda: setattr(serving.RemoterTls, "wrap", real_wrap)
-            self.srv = serving.ServerTls(host="127.0.0.1", port=56000, tymth=self.tymist.tymen(), context=ctx(True))
+            self.srv = serving.ServerTls(host="127.0.0.1", port=56000, tymth=self.tymist.tymen(), context=ctx(True), wl=self.wl)
         else:
-            self.srv = serving.Server(host="127.0.0.1", port=56000, tymth=self.tymist.tymen())
+            self.srv = serving.Server(host="127.0.0.1", port=56000, tymth=self.tymist.tymen(), wl=self.wl)
             self._restore = lambda: None
         self.srv.ss = self.listen
         self.srv.opened = True
@@ -179,6 +179,7 @@ class ServerRig:
             f = fakesock.FakeConn(ca=("127.0.0.1", 50000 + int(c)), ha=("127.0.0.1", 56000), tls=tls)
             if tls:
                 f.hsplan = ["block"] if handshakes else ["ok"]
+            f.peer_gone = c in gone
             self.f[c], self.q[c], self.pin[c] = f, 0, 0
             self.listen.pending.append(f)
         self.err = None
